@@ -222,13 +222,43 @@ def fam_boundary(rng, tier, i):
     nB = (2 * cs + off2 + shift) - (cs + off1) - Kp
     s.append("pushseq %d 1 %d %d" % (tB, nB, rng.randrange(256)))
     tC = tB + nB + 70000
-    s.append("pushseq %d 3 %d %d" % (tC, rng.randrange(1, 40), rng.randrange(256)))
+    nC = rng.randrange(1, 40)
+    lastC = tC + 3 * (nC - 1)
+    s.append("pushseq %d 3 %d %d" % (tC, nC, rng.randrange(256)))
     s += ["len", "range", "last_line", "n_lines u u", "read_all u u"]
     s += ["read_all i%d i%d" % (tB - 5, tC + 2), "read_first_n 3 i%d u" % (tB - 1), "read_n 7 u u"]
     s += ["close", "fs_rm index:b", open_line("b"), "len", "range", "read_all u u",
-          "read_all i%d u" % (tC - 1), "push %d %s" % (tC + 10**6, hexb(payload(rng, p))), "read_all i%d u" % tC, "close",
+          "read_all i%d u" % (tC - 1),
+          # an append right after the last line: section or not depends on the last full timestamp the rebuilt index reports
+          "push %d %s" % (lastC + 1, hexb(payload(rng, p))), "push %d %s" % (lastC + 65000, hexb(payload(rng, p))),
+          "push %d %s" % (tC + 10**6, hexb(payload(rng, p))), "read_all i%d u" % tC, "close",
           "fs_cut index:b 16", open_line("b"), "len", "push %d %s" % (tC + 2 * 10**6, hexb(payload(rng, p))), "read_all i%d u" % tC, "close", "dump"]
     return {"family": "boundary", "lines": s, "tags": {"p%d" % p, "big"}}
+
+def fam_boundary2(rng, tier, i):
+    """two consecutive 16 KiB boundaries of the index rebuild scan BOTH split a section header (every pair of split
+    points, enumerated), then the index is removed: rebuild, and appends whose encoding depends on the last full
+    timestamp the rebuilt index reports (C06 C15 C05 C12)"""
+    combos = [(p, o1, o2) for p in (0, 1, 2, 3, 4) for o1 in range(-K(p) + 1, 0) for o2 in range(-K(p) + 1, 0)]
+    p, off1, off2 = combos[(i * 7 + rng.randrange(len(combos))) % len(combos)]
+    L = p + 2
+    Kp = K(p)
+    cs = (((16384 + L - 1) // L) * L) // L
+    base = rng.choice([1000, 2**32 + 5, 2**48 + 7])
+    s = [new_line("b", p)]
+    nA = cs + off1 - Kp
+    s.append("pushseq %d 1 %d %d" % (base, nA, rng.randrange(256)))
+    tB = base + nA + 70000
+    nB = (2 * cs + off2) - (cs + off1) - Kp
+    s.append("pushseq %d 1 %d %d" % (tB, nB, rng.randrange(256)))
+    tC = tB + nB + 70000
+    nC = rng.randrange(1, 20)
+    lastC = tC + 3 * (nC - 1)
+    s.append("pushseq %d 3 %d %d" % (tC, nC, rng.randrange(256)))
+    s += ["close", "fs_rm index:b", open_line("b"), "len", "range", "last_line",
+          "push %d %s" % (lastC + 1, hexb(payload(rng, p))), "push %d %s" % (lastC + 65000, hexb(payload(rng, p))),
+          "read_all i%d u" % (tC - 1), "close", open_line("b"), "read_all i%d u" % (tB - 1), "len", "close", "dump"]
+    return {"family": "boundary2", "lines": s, "tags": {"p%d" % p, "big"}}
 
 def fam_boundary_reader(rng, tier, i):
     """the reader's own boundaries: its first buffer starts after the first section, so a section
@@ -724,7 +754,7 @@ def fam_totality(rng, tier, i):
     return {"family": "totality", "lines": s, "tags": {"p%d" % p}}
 
 FAMILIES = {f.__name__[4:]: f for f in [
-    fam_roundtrip, fam_boundary, fam_boundary_reader, fam_bigsection, fam_sparse_boundary, fam_ranges, fam_refuse, fam_reopen, fam_reopen_marker,
+    fam_roundtrip, fam_boundary, fam_boundary2, fam_boundary_reader, fam_bigsection, fam_sparse_boundary, fam_ranges, fam_refuse, fam_reopen, fam_reopen_marker,
     fam_bigline, fam_torn, fam_index_states, fam_format, fam_assets, fam_caches, fam_caches_reopen,
     fam_caches_faults, fam_cache_sections, fam_resample, fam_contract, fam_corrupt, fam_totality]}
 
